@@ -1,13 +1,72 @@
 (* C01: total token supply is conserved by every transaction.
    Only statements; each is closed by [exact] of a lemma in Proof/ChainStateC01.v.
 
-   The full statement is FALSE of the code as it is (and of the faithful model): a transfer
-   whose destination is the other-case spelling of an existing account's id is accepted and its
-   credit never reaches the trie (see [cs_commit] in Model/ChainState.v).  The file therefore
-   contains the full statement, its refutation with the concrete witness, and the theorems
-   proved outside exactly that trigger: every id is in canonical (lower-case) spelling. *)
+   History of this file: with the lenient encryption.IsHash (upper-case hex accepted) the
+   statement was false of the code - a transfer to the other-case spelling of an existing account
+   id was applied and its credit never reached the trie ([cs_commit] in Model/ChainState.v).  That
+   was repaired in /repo (IsHash accepts only the canonical lower-case spelling).  How IsHash
+   treats other spellings is an input of the model ([cfg_strict_ids], probed on the real code every
+   run); the theorems for the code as it is carry [cfg_strict_ids cfg = true].  The refutation for
+   the lenient configuration is kept as the record of the repaired defect. *)
 From ZC Require Import Model.ChainState Proof.ChainState Proof.ChainStateC01.
 Open Scope Z_scope.
+
+(* ---------- the code as it is: strict IsHash ---------- *)
+
+(* Every transaction that can reach updateState - sender id derived from a public key, uint64
+   amounts, contract destinations accepted by StateContext.AddTransfer (for signed transfers a
+   premise about the contract, see C01_signed_destination_residue) - conserves the supply: every
+   state with canonical leaves, every transaction type, value, fee and nonce, every contract
+   oracle result (success with arbitrary writes / queued / signed transfers from ANY source,
+   chargeable failure, internal failure), any Send destination whatsoever. *)
+Theorem C01_update_state_conserves :
+  forall cfg st round tx r,
+    cfg_strict_ids cfg = true -> cs_canon_accts (st_accts st) -> cs_reachable_txn cfg tx r ->
+    cs_total (st_accts (cs_post st (cs_update_state cfg st round tx r))) = cs_total (st_accts st).
+Proof. exact cs_c01_update_reachable. Qed.
+Print Assumptions C01_update_state_conserves.
+
+(* ... hence every reachable history does, and its leaves stay canonical (so the hypothesis on
+   the state is an invariant, established by genesis). *)
+Theorem C01_history_conserves :
+  forall cfg h st,
+    cfg_strict_ids cfg = true -> cs_canon_accts (st_accts st) -> Forall (cs_reachable_item cfg) h ->
+    cs_total (st_accts (cs_run cfg st h)) = cs_total (st_accts st) /\
+    cs_canon_accts (st_accts (cs_run cfg st h)).
+Proof. exact cs_c01_history_reachable. Qed.
+Print Assumptions C01_history_conserves.
+
+(* The supply is MaxTokenSupply in every state reachable from a genesis distribution. *)
+Theorem C01_supply_is_max_token_supply :
+  forall gs m cfg nodes h,
+    cfg_strict_ids cfg = true ->
+    NoDup (cs_gen_ids gs) -> cs_genesis gs = Some m ->
+    cs_canon_accts m -> Forall (cs_reachable_item cfg) h ->
+    cs_total (st_accts (cs_run cfg {| st_accts := m; st_nodes := nodes |} h)) = cs_max_supply.
+Proof. exact cs_c01_reachable_supply_strict. Qed.
+Print Assumptions C01_supply_is_max_token_supply.
+
+(* A send to an upper-case spelling is now refused: not applied, state unchanged. *)
+Theorem C01_uppercase_destination_rejected :
+  forall cfg st round tx r,
+    cfg_strict_ids cfg = true -> tx_type tx = TSend -> cs_upper_base <= tx_to tx ->
+    cs_is_applied (cs_update_state cfg st round tx r) = false /\
+    cs_post st (cs_update_state cfg st round tx r) = st.
+Proof. exact cs_c01_uppercase_send_rejected. Qed.
+Print Assumptions C01_uppercase_destination_rejected.
+
+(* What is left outside: StateContext.AddSignedTransfer does not check the destination, so the
+   premise of [cs_accepted] on signed transfers is not enforced by the chain.  Witness: with the
+   strict IsHash a contract that signs 100 out of account 3 to the upper-case spelling of account
+   4's id still shrinks the supply 2000 -> 1900. *)
+Theorem C01_signed_destination_residue :
+  let tx := {| tx_hash := 0; tx_type := TSC; tx_from := 3; tx_to := 1; tx_value := 0; tx_fee := 0; tx_nonce := 1 |} in
+  let r := SCOk [] [] [Build_cs_transfer 3 (cs_upper_base + 4) 100] [] 0 in
+  cs_total (st_accts (cs_post cs_c01_witness_state (cs_update_state cs_c01_strict_cfg cs_c01_witness_state 7 tx r))) = 1900.
+Proof. exact cs_c01_signed_residue. Qed.
+Print Assumptions C01_signed_destination_residue.
+
+(* ---------- configuration-independent facts and the repaired defect ---------- *)
 
 (* One applied transfer (transferAmountWithAssert) leaves the sum of all balances unchanged; a
    refused one returns an error (the caller then drops the transaction's trie); the assertion
@@ -19,11 +78,12 @@ Theorem C01_transfer_amount_sum :
 Proof. exact cs_c01_transfer_failure_keeps. Qed.
 Print Assumptions C01_transfer_amount_sum.
 
-(* The full statement: updateState never changes the sum of all balances. *)
+(* The statement over every configuration, the lenient IsHash included ... *)
 Definition C01_full_statement : Prop :=
   forall cfg st round tx r,
     cs_total (st_accts (cs_post st (cs_update_state cfg st round tx r))) = cs_total (st_accts st).
 
+(* ... is false: this was the defect (witness below uses cfg_strict_ids := false). *)
 Theorem C01_supply_refuted : ~ C01_full_statement.
 Proof. exact cs_c01_refuted. Qed.
 Print Assumptions C01_supply_refuted.
@@ -47,7 +107,7 @@ Theorem C01_context_conserves :
 Proof. exact cs_c01_update_ideal. Qed.
 Print Assumptions C01_context_conserves.
 
-(* Outside the trigger (all ids canonical): updateState conserves the supply for every
+(* For either IsHash, when all ids are canonical: updateState conserves the supply for every
    configuration, state, transaction (type, value, fee, nonce) and every contract oracle result:
    success with arbitrary writes, queued and signed transfers, chargeable failure, internal
    failure. *)
@@ -85,7 +145,7 @@ Print Assumptions C01_supply_is_max_token_supply_partial.
 (* Non-vacuity: a genesis distribution, then a contract call that moves tokens between four
    accounts and pays a fee, a chargeable failure and a rejected overdraft; all ids canonical. *)
 Example C01_example :
-  let cfg := {| cfg_fee := true; cfg_events := false; cfg_miner := 0; cfg_strict_ids := false |} in
+  let cfg := {| cfg_fee := true; cfg_events := false; cfg_miner := 0; cfg_strict_ids := true |} in
   let gs := [(1, 3999999999999999000, [(3, 500); (4, 70)]); (0, 1000, [])] in
   let tx n ty v f := {| tx_hash := n; tx_type := ty; tx_from := 3; tx_to := 1; tx_value := v;
                         tx_fee := f; tx_nonce := n |} in
